@@ -100,6 +100,173 @@ def srt_timing_lines(c):
         c.ensure(f"end{i}", ((b[0] * 60 + b[1]) * 60 + b[2]) * 1000 + b[3] == e // 1000)
 
 
+def srt_any_number(c):
+    """SRTWriter._recreate_lang for ANY number of captions (loop invariants over z3 sequences): the
+    printed cues are numbered 1, 2, ... and their (start, end) stamps are exactly the captions' spans in
+    order with consecutive identical spans collapsed into one cue.  The stamp text itself is
+    Caption.format_start / format_end (contract proved above: 'HH:MM:SS,mmm' of floor(t / 1000) ms, 12
+    characters below 100 h); the cue text statements (which assign only new_content / node) are abstracted."""
+    import ast
+    import z3
+    from pyvc import heap
+    from pyvc.heap import SymList, SymRef, declare, loop_rule, SEQ, INT, REAL, heap_array, as_seq
+    from pyvc.interp import SymObject, function_ast
+    from pyvc.sym import zreal, Fmt, Digits, Inapplicable, cur, SStr, Opaque
+    from pycaption.base import Caption as RealCaption
+    heap.install(c.interp)
+    saved = dict(heap.SCHEMAS)
+    p = cur()
+    p.ghost["symbolic_heap"] = True
+    RSEQ = z3.SeqSort(REAL)
+
+    class OpaqueList(heap.SymId):
+        """a node list known only by identity; concatenation gives another one; never empty (A: the
+        Caption constructor rejects empty node lists)"""
+        def __add__(self, o):
+            return OpaqueList(cur().fresh_int("nodes"))
+        __radd__ = __add__
+        def __bool__(self):
+            return True
+        def __hash__(self):
+            return id(self)
+
+    class Stamp(SymObject):
+        def __init__(self, which, t):
+            self.which, self.t = which, t
+        def sym_getitem(self, interp, k):
+            if not (isinstance(k, slice) and k.start is None and k.stop == 12 and k.step is None):
+                raise Inapplicable("stamp sliced other than [:12]")
+            return SStr([Opaque("stamp", (self.which, self.t), "0123456789:,", lo=12)])
+
+    class Text(SymObject):
+        def sym_format(self, spec):
+            return SStr([Opaque("text", None, "x", lo=0)])
+
+    class SrtLog(SymObject):
+        """the SRT text abstracted to what was printed: the sequences of start and end instants, and
+        whether every index line carried the number of its cue"""
+        def __init__(self, S, E, nok):
+            self.S, self.E, self.nok = S, E, nok
+        @staticmethod
+        def of(x):
+            return x if isinstance(x, SrtLog) else SrtLog(z3.Empty(RSEQ), z3.Empty(RSEQ), z3.BoolVal(True))
+        def __add__(self, piece):
+            out = self
+            for a in (piece.atoms if isinstance(piece, SStr) else []):
+                if isinstance(a, (Fmt, Digits)):
+                    out = SrtLog(out.S, out.E, z3.And(out.nok, a.val == z3.Length(out.S) + 1))
+                elif isinstance(a, Opaque) and a.tag == "stamp":
+                    which, t = a.payload
+                    if which == "start":
+                        out = SrtLog(z3.Concat(out.S, z3.Unit(t)), out.E, out.nok)
+                    else:
+                        out = SrtLog(out.S, z3.Concat(out.E, z3.Unit(t)), out.nok)
+            return out
+        def sym_getitem(self, interp, k):
+            return self
+
+    heap.CUSTOM_KINDS["olist"] = OpaqueList
+    try:
+        declare(RealCaption, start="num!", end="num!", nodes="olist", style="id", layout_info="id")
+        X = SymList(z3.Const("captions", SEQ), RealCaption)
+        n = z3.Length(X.t)
+        ST, EN = heap_array(p, RealCaption, "start"), heap_array(p, RealCaption, "end")
+        DS, DE = z3.Function("DS", SEQ, RSEQ), z3.Function("DE", SEQ, RSEQ)      # spans with consecutive duplicates collapsed
+        OS, OE = z3.Function("OS", SEQ, RSEQ), z3.Function("OE", SEQ, RSEQ)      # spans of a caption list
+        E0, R0 = z3.Empty(SEQ), z3.Empty(RSEQ)
+        p.assume(z3.And(DS(E0) == R0, DE(E0) == R0, OS(E0) == R0, OE(E0) == R0))
+
+        def snoc(s, x):
+            sx = z3.Concat(s, z3.Unit(x))
+            last = s[z3.Length(s) - 1]
+            same = z3.And(z3.Length(s) > 0, ST[x] == ST[last], EN[x] == EN[last])
+            return z3.And(OS(sx) == z3.Concat(OS(s), z3.Unit(ST[x])), OE(sx) == z3.Concat(OE(s), z3.Unit(EN[x])),
+                          DS(sx) == z3.If(same, DS(s), z3.Concat(DS(s), z3.Unit(ST[x]))),
+                          DE(sx) == z3.If(same, DE(s), z3.Concat(DE(s), z3.Unit(EN[x]))))
+
+        def pre(s, i):
+            return z3.SubSeq(s, 0, i)
+
+        def split_last(s):
+            """sequence-theory lemma instance: a non-empty sequence is its front plus its last element"""
+            m = z3.Length(s)
+            return z3.Implies(m >= 1, z3.And(s == z3.Concat(pre(s, m - 1), z3.Unit(s[m - 1])), snoc(pre(s, m - 1), s[m - 1])))
+
+        def definitions(S):
+            for s_, x_ in S.p.ghost.get("appends", []):
+                S.p.assume(snoc(s_, x_))
+
+        def inv1(S):
+            # loop over captions[1:]: index i of the tail is index i + 1 of the list
+            i = S.i
+            definitions(S)
+            S.p.assume(z3.Implies(n >= 1, z3.And(pre(X.t, 1) == z3.Unit(X.t[0]), snoc(E0, X.t[0]))))
+            S.p.assume(z3.Implies(i + 1 < n, z3.And(pre(X.t, i + 2) == z3.Concat(pre(X.t, i + 1), z3.Unit(X.t[i + 1])),
+                                                     snoc(pre(X.t, i + 1), X.t[i + 1]))))
+            M = as_seq(S.local("merged_captions"))
+            S.p.assume(split_last(M))
+            P = pre(X.t, i + 1)
+            lastm = M[z3.Length(M) - 1]
+            return [("loop_runs_over_all_captions_after_the_first", z3.And(z3.Length(S.seq.t) == z3.If(n >= 1, n - 1, 0),
+                                                                            z3.Implies(i + 1 < n, S.seq.t[i] == X.t[i + 1]))),
+                    ("no_caption_no_cue", z3.Implies(n == 0, M == E0)),
+                    ("one_cue_per_run_so_far", z3.Implies(n >= 1, z3.And(z3.Length(M) >= 1, OS(M) == DS(P), OE(M) == DE(P)))),
+                    ("last_cue_has_the_span_of_the_last_caption", z3.Implies(n >= 1, z3.And(ST[lastm] == ST[X.t[i]], EN[lastm] == EN[X.t[i]])))]
+        q = "pycaption.srt:SRTWriter._recreate_lang"
+        c.interp.loop_hooks[(q, 1)] = loop_rule("merge", inv1, locals_={"merged_captions": ("seq", RealCaption)})
+
+        def inv2(S):
+            j = S.i
+            definitions(S)
+            Mt = S.seq.t
+            S.p.assume(z3.Implies(j < z3.Length(Mt), z3.And(pre(Mt, j + 1) == z3.Concat(pre(Mt, j), z3.Unit(Mt[j])), snoc(pre(Mt, j), Mt[j]))))
+            S.p.assume(pre(Mt, 0) == E0)
+            log = SrtLog.of(S.local("srt"))
+            cnt = S.local("count")
+            return [("printed_cues_are_the_merged_list_so_far", z3.And(log.S == OS(pre(Mt, j)), log.E == OE(pre(Mt, j)), log.nok,
+                                                                       z3.Length(log.S) == j, zint_(cnt) == j + 1))]
+
+        def zint_(v):
+            from pyvc.sym import zint
+            return zint(v)
+        c.interp.loop_hooks[(q, 2)] = loop_rule(
+            "print", inv2, locals_={"srt": ("custom", lambda p_, v: SrtLog(z3.Const(p_._name("S"), RSEQ), z3.Const(p_._name("E"), RSEQ), p_.fresh_bool("nok"))),
+                                    "count": ("int", None), "start": ("skip", None), "end": ("skip", None),
+                                    "new_content": ("skip", None), "node": ("skip", None), "line": ("skip", None)})
+        # the cue-text statements are abstracted; they may assign nothing but new_content / node / line
+        fn_node = function_ast(SRTWriter._recreate_lang)
+        loops = [st for st in fn_node.body if isinstance(st, ast.For)]
+        if len(loops) != 2:
+            raise Inapplicable(f"expected the merge loop and the print loop, found {len(loops)} loops")
+        text_stmts = [st for st in loops[1].body if (isinstance(st, ast.For) and isinstance(st.iter, ast.Attribute) and st.iter.attr == "nodes")
+                      or (isinstance(st, ast.Assign) and any(isinstance(t, ast.Name) and t.id == "new_content" for t in st.targets)
+                          and isinstance(st.value, ast.Call))]
+        if len(text_stmts) != 2:
+            raise Inapplicable(f"expected the node loop and the blank-line filter, found {len(text_stmts)} cue-text statements")
+        for st in text_stmts:
+            names = heap.assigned_names([st])
+            if not names <= {"new_content", "node", "line"} or heap.stored_fields([st]) or heap.mutated_names([st]):
+                raise Inapplicable(f"cue-text statement at line {st.lineno} assigns {sorted(names)}")
+
+            def hook(interp, s_, frame):
+                frame.locals["new_content"] = Text()
+                return "skip"
+            c.interp.stmt_hooks[(q, st.lineno)] = hook
+        c.interp.contracts["pycaption.base:Caption.format_start"] = lambda interp, fn, a, kw: Stamp("start", zreal(a[0].start))
+        c.interp.contracts["pycaption.base:Caption.format_end"] = lambda interp, fn, a, kw: Stamp("end", zreal(a[0].end))
+        r = c.call(SRTWriter._recreate_lang, c.new(SRTWriter), X, compare=False)
+        log = SrtLog.of(r)
+        p.assume(pre(X.t, n) == X.t)
+        M = None
+        c.ensure("cue_numbers_count_from_one", log.nok)
+        c.ensure("printed_starts_are_the_spans_with_identical_neighbours_collapsed", log.S == DS(X.t))
+        c.ensure("printed_ends_are_the_spans_with_identical_neighbours_collapsed", log.E == DE(X.t))
+    finally:
+        heap.SCHEMAS.clear()
+        heap.SCHEMAS.update(saved)
+        heap.CUSTOM_KINDS.pop("olist", None)
+
+
 def dfxp_p_times(c):
     """<p begin= end=> of the DFXP writers (A: bs4 new_tag keeps the attribute values)"""
     W = c.pick("writer", [DFXPWriter, LegacyDFXPWriter])
@@ -269,6 +436,7 @@ def run(ctx):
     P("microdvd.MicroDVDWriter._microtoframes", microdvd_frames, functions=[MicroDVDWriter._microtoframes])
     P("srt.SRTWriter._recreate_lang[2 captions]", srt_timing_lines,
       functions=[SRTWriter._recreate_lang, SRTWriter._recreate_line])
+    P("srt.SRTWriter._recreate_lang[any number of captions]", srt_any_number, functions=[SRTWriter._recreate_lang], crosscheck=False)
     P("dfxp._recreate_p_tag", dfxp_p_times, functions=[DFXPWriter._recreate_p_tag, LegacyDFXPWriter._recreate_p_tag])
     P("sami.SAMIWriter._recreate_p_tag", sami_sync_decision,
       functions=[SAMIWriter._recreate_p_tag, SAMIWriter._recreate_blank_tag, SAMIWriter._recreate_sync])
